@@ -14,6 +14,14 @@ var verifTypNames = [...]string{"TA", "TA", "TC", "TD", "TE"}
 
 var verifTypPkgs = [...][2]string{{"example.com/a/model", "model"}, {"example.com/b/model", "model"}, {"example.com/u", "u"}, {"example.com/u", "u"}, {"example.com/u", "u"}}
 
+// verifCTyp is the token type of the cycle-detection harness.
+type verifCTyp struct{ name string }
+
+func (t *verifCTyp) Underlying() types.Type { return t }
+func (t *verifCTyp) String() string         { return t.name }
+
+var verifCTypNames = [...]string{"TA", "TB", "TC", "TD", "TE"}
+
 func verifTokens(n int) []types.Type {
 	pkgs := map[string]*types.Package{}
 	out := make([]types.Type, n)
@@ -35,9 +43,10 @@ func verifTokens(n int) []types.Type {
 func verifHarnessDetectCycles(n int, parallel bool) {
 	g := &Graph{edges: make(map[*node][]*edgeNode), reverseEdges: make(map[*node][]*node)}
 	nodes := make([]*node, n)
-	dtoks := verifTokens(n)
 	for i := range nodes {
-		nodes[i] = &node{providerSpec: &ProviderSpec{Provides: [][]types.Type{{dtoks[i]}}}}
+		// cycle detection touches types only through String(): light token types keep the
+		// 2^(n*n) relations affordable
+		nodes[i] = &node{providerSpec: &ProviderSpec{Provides: [][]types.Type{{&verifCTyp{name: verifCTypNames[i]}}}}}
 		g.nodes = append(g.nodes, nodes[i])
 	}
 	adj := make([][]bool, n)
@@ -103,7 +112,7 @@ func verifHarnessDetectCycles(n int, parallel bool) {
 			verifAssert(walk, "diagnostic-is-a-cycle")
 			msg := ce.Error()
 			for _, x := range ce.Cycle {
-				verifAssert(strings.Contains(msg, verifTypNames[idx(x)]), "diagnostic-names-types")
+				verifAssert(strings.Contains(msg, verifCTypNames[idx(x)]), "diagnostic-names-types")
 			}
 		}
 	}
